@@ -21,6 +21,7 @@ import (
 	"github.com/sirupsen/logrus"
 	"github.com/spf13/afero"
 	"golang.org/x/sync/errgroup"
+	"google.golang.org/protobuf/proto"
 
 	"github.com/anz-bank/sysl/pkg/env"
 	parser "github.com/anz-bank/sysl/pkg/grammar"
@@ -561,7 +562,7 @@ func applyAttributes(src *sysl.Statement, dst *sysl.Statement) bool {
 			if dst.Attrs == nil {
 				dst.Attrs = map[string]*sysl.Attribute{}
 			}
-			mergeAttrs(src.Attrs, dst.Attrs)
+			mergeCollectorAttrs(src.Attrs, dst.Attrs)
 			applied = true
 		}
 		return applied
@@ -624,6 +625,32 @@ func checkCalls(mod *sysl.Module, appname string, epname string, dst *sysl.State
 	return true
 }
 
+// mergeCollectorAttrs applies the attributes of a collector statement to its target. Array attributes (patterns)
+// gain only the elements they do not hold yet, so that applying the collector again, as happens when a compiled model
+// is imported and post-processed a second time, leaves the target unchanged.
+func mergeCollectorAttrs(src map[string]*sysl.Attribute, dst map[string]*sysl.Attribute) {
+	for k, v := range src {
+		dstAttr, dstOK := dst[k].GetAttribute().(*sysl.Attribute_A)
+		vAttr, vOK := v.GetAttribute().(*sysl.Attribute_A)
+		if !dstOK || !vOK {
+			mergeAttrs(map[string]*sysl.Attribute{k: v}, dst)
+			continue
+		}
+		for _, e := range vAttr.A.Elt {
+			found := false
+			for _, x := range dstAttr.A.Elt {
+				if x == e || proto.Equal(x, e) {
+					found = true
+					break
+				}
+			}
+			if !found {
+				dstAttr.A.Elt = append(dstAttr.A.Elt, e)
+			}
+		}
+	}
+}
+
 func collectorPubSubCalls(appName string, app *sysl.Application) {
 	endpoint := app.Endpoints[`.. * <- *`]
 	if endpoint == nil {
@@ -642,7 +669,7 @@ func collectorPubSubCalls(appName string, app *sysl.Application) {
 			if modifyEP.Attrs == nil {
 				modifyEP.Attrs = map[string]*sysl.Attribute{}
 			}
-			mergeAttrs(collectorStmt.Attrs, modifyEP.Attrs)
+			mergeCollectorAttrs(collectorStmt.Attrs, modifyEP.Attrs)
 		case *sysl.Statement_Call:
 			applied := false
 
